@@ -22,6 +22,90 @@
 
 static void *opener(void *a) { (void)a; for (;;) { int fd = syscall(SYS_open, "/dev/null", O_RDONLY); if (fd >= 0) close(fd); } return NULL; }
 
+
+// ---- pathops: scripted path syscalls with exact register values, and the kernel's own resolution of (dirfd, path)
+static int po_slots[16];
+static unsigned long po_dspec(const char *d) {
+  // cwd:sx | cwd:zx | cwd:gb | slot:N:sx|zx|gb | num:V
+  unsigned long lo;
+  const char *enc;
+  if (!strncmp(d, "cwd:", 4)) { lo = 0xffffff9cUL; enc = d + 4; }
+  else if (!strncmp(d, "slot:", 5)) { lo = (unsigned long)(unsigned int)po_slots[atoi(d + 5) & 15]; enc = strchr(d + 5, ':') + 1; }
+  else return strtoul(d + 4, NULL, 0);
+  if (!strcmp(enc, "sx")) return (unsigned long)(long)(int)lo;
+  if (!strcmp(enc, "gb")) return 0xdeadbeef00000000UL | lo;
+  return lo;
+}
+static void po_truth(FILE *out, int dfd, const char *path, int nofollow) {
+  static char link[64], res[8192];
+  int fd = openat(dfd, path, O_PATH | (nofollow ? O_NOFOLLOW : 0));
+  if (fd >= 0) {
+    snprintf(link, sizeof link, "/proc/self/fd/%d", fd);
+    ssize_t l = readlink(link, res, sizeof res - 1); close(fd);
+    if (l < 0) { fprintf(out, " !readlink"); return; }
+    res[l] = 0; fprintf(out, " %s", res); return;
+  }
+  if (errno != ENOENT) { fprintf(out, " !e%d", errno); return; }
+  // the last component may be missing: parent + name
+  static char tmp[8192]; strncpy(tmp, path, sizeof tmp - 1);
+  size_t n = strlen(tmp);
+  if (n == 0) { fprintf(out, " !empty"); return; }
+  if (tmp[n - 1] == '/') { fprintf(out, " !e2"); return; }
+  char *sl = strrchr(tmp, '/'); const char *last, *dirp;
+  if (sl) { last = sl + 1; if (sl == tmp) dirp = "/"; else { *sl = 0; dirp = tmp; } } else { last = tmp; dirp = "."; }
+  if (!strcmp(last, ".") || !strcmp(last, "..")) { fprintf(out, " !e2"); return; }
+  static char lastc[4096]; strncpy(lastc, last, sizeof lastc - 1);
+  int pfd = openat(dfd, dirp, O_PATH | O_DIRECTORY);
+  if (pfd < 0) { fprintf(out, " !e%d", errno); return; }
+  struct stat st;
+  if (fstatat(pfd, lastc, &st, AT_SYMLINK_NOFOLLOW) == 0) { close(pfd); fprintf(out, " !dangling"); return; }
+  snprintf(link, sizeof link, "/proc/self/fd/%d", pfd);
+  ssize_t l = readlink(link, res, sizeof res - 1); close(pfd);
+  if (l < 0) { fprintf(out, " !readlink"); return; }
+  res[l] = 0;
+  fprintf(out, " %s%s%s", res, (l == 1 && res[0] == '/') ? "" : "/", lastc);
+}
+static int pathops(const char *script, const char *outp) {
+  FILE *in = fopen(script, "r"), *out = fopen(outp, "w");
+  if (!in || !out) return 97;
+  static char line[16384]; static char strs[8][8192]; static unsigned long how[4];
+  while (fgets(line, sizeof line, in)) {
+    char *tok[16]; int nt = 0; line[strcspn(line, "\n")] = 0;
+    for (char *q = strtok(line, " "); q && nt < 16; q = strtok(NULL, " ")) tok[nt++] = q;
+    if (nt == 0) continue;
+    if (!strcmp(tok[0], "chdir")) { if (chdir(tok[1]) != 0) return 96; }
+    else if (!strcmp(tok[0], "opendir")) { po_slots[atoi(tok[1]) & 15] = open(tok[2], O_RDONLY | O_DIRECTORY); if (po_slots[atoi(tok[1]) & 15] < 0) return 95; }
+    else if (!strcmp(tok[0], "fchdir")) { if (fchdir(po_slots[atoi(tok[1]) & 15]) != 0) return 94; }
+    else if (!strcmp(tok[0], "op")) {
+      // op ID NR a0..a5 ; each: p:STRING (pointer; "-" is the empty string) | d:DSPEC | n:NUMBER | h:FLAGS (pointer to an open_how) | x (unmapped pointer)
+      unsigned long a[6] = {0, 0, 0, 0, 0, 0}; int ns = 0; static char mk[64];
+      for (int i = 0; i < 6 && 3 + i < nt; i++) {
+        const char *t = tok[3 + i];
+        if (t[0] == 'p') { strncpy(strs[ns], strcmp(t + 2, "-") ? t + 2 : "", sizeof strs[0] - 1); a[i] = (unsigned long)strs[ns++]; }
+        else if (t[0] == 'd') a[i] = po_dspec(t + 2);
+        else if (t[0] == 'n') a[i] = strtoul(t + 2, NULL, 0);
+        else if (t[0] == 'h') { how[0] = strtoul(t + 2, NULL, 0); how[1] = 0; how[2] = 0; a[i] = (unsigned long)how; }
+        else if (t[0] == 'x') a[i] = 0x10;
+      }
+      snprintf(mk, sizeof mk, "/__m__/%s", tok[1]);
+      syscall(SYS_access, mk, 0);
+      long r = syscall(atol(tok[2]), a[0], a[1], a[2], a[3], a[4], a[5]);
+      int e = errno;
+      syscall(SYS_access, "/__m__/end", 0);
+      fprintf(out, "op %s %ld %d\n", tok[1], r, r < 0 ? e : 0);
+    } else if (!strcmp(tok[0], "t")) {
+      // t ID DSPEC PATH : the kernel's resolution, following and not following the last component
+      int dfd = (int)po_dspec(tok[2]);
+      const char *pth = strcmp(tok[3], "-") ? tok[3] : "";
+      fprintf(out, "t %s", tok[1]);
+      po_truth(out, dfd, pth, 0); po_truth(out, dfd, pth, 1);
+      fprintf(out, "\n");
+    }
+  }
+  fclose(out);
+  return 0;
+}
+
 int main(int argc, char **argv) {
   if (argc < 2) return 2;
   const char *c = argv[1];
@@ -154,6 +238,8 @@ int main(int argc, char **argv) {
     n += snprintf(buf + n, sizeof buf - n, "}\n");
     write(1, buf, n);
     _exit(0);
+  } else if (!strcmp(c, "pathops")) {
+    _exit(pathops(argv[2], argv[3]));
   } else if (!strcmp(c, "selfmod")) {
     // try to modify the running executable through /proc/self/exe and every inherited descriptor; prints what succeeded
     static char buf[4096]; int n = 0; int ok = 0;
